@@ -344,7 +344,7 @@ func cmdVerify(args []string) int {
 		x := newExec(p, db, shortUnit(unitName))
 		x.safetyOnly = safetyOnlyUnits[key]
 		if fn.Pkg != nil {
-			x.useOpaque(fn.Pkg.Pkg.Path())
+			x.useOpaque(fn.Pkg.Pkg.Path(), c.File)
 		}
 		if boundedRun {
 			x.boundedRun = true
